@@ -200,11 +200,17 @@ func c04Offsets(lo, hi int, quick bool, stride int, seed int64) []int {
 	if hi <= lo {
 		return out
 	}
-	if !quick || hi-lo <= 4 {
+	if hi-lo <= 4 || (!quick && hi-lo <= 512) {
 		for o := lo; o < hi; o++ {
 			out = append(out, o)
 		}
 		return out
+	}
+	if !quick {
+		// thorough tier: every offset of regions up to 512 bytes (all headers, CRCs, sample/tombstone/marker payloads, chunk
+		// fields); the homogeneous large regions (the 36 KiB label of the big series record, page padding, preallocated tail)
+		// every 127th offset and both ends
+		stride = 127
 	}
 	m := map[int]bool{lo: true, hi - 1: true, (lo + hi) / 2: true}
 	for o := lo + int(seed)%stride; o < hi; o += stride {
